@@ -59,6 +59,7 @@ type G struct {
 	done                       bool
 	block                      string
 	psite                      string
+	gateKey                    string // set by vx.Gate; recorded when the goroutine next acquires a lock
 	vc                         []int // vector clock (race detector)
 	preempts                   int
 }
@@ -96,6 +97,7 @@ type Interp struct {
 	inputs       []namedInput
 	obs          []obsRec
 	schedTrace   []int
+	gateOrder    []string
 	sigTags      []string
 	ixCache      map[*ssa.Function]*Intrinsic
 	methCache    map[methKey]Value
@@ -129,6 +131,7 @@ func (in *Interp) resetRun() {
 	in.inputs = nil
 	in.obs = nil
 	in.schedTrace = nil
+	in.gateOrder = nil
 	in.sigTags = nil
 	if in.StubsHit == nil {
 		in.StubsHit = map[string]int{}
